@@ -160,13 +160,25 @@ def save(arr, name):
     return path
 
 
-def check_image(res, inner, expected, rng, exprs, label, syms):
+def check_image(res, inner, expected, rng, exprs, label, syms, ne_match=False):
     base = None
     for sname, fsym in syms:
         for pad, mirror in ((0, False), (int(rng.integers(1, 9)), False), (0, True)):
             ne = int(rng.integers(3, 10))
             arr = with_frame(np.ascontiguousarray(fsym(inner)), pad)
             path = save(arr, f"{label.replace('/', '_')}_{sname}_{pad}_{int(mirror)}.tif")
+            if ne_match:
+                # ne equal to the number of vertices of one of the parsed interfaces (the boundary case of 'at most ne segments')
+                try:
+                    with impl.quiet():
+                        sk0 = impl.fs.skeleton.Skeleton(path, mirror_y=mirror)
+                        v0, e0, c0 = sk0.create_lattice()
+                        lens = sorted({len(b) for b in impl.ve.create_edges_new(v0, c0) if 3 <= len(b) <= 9})
+                    if lens:
+                        ne = int(lens[int(rng.integers(0, len(lens)))])
+                        res.count("ne equals the length of an interface")
+                except Exception:  # noqa  (the judged parse below reports it)
+                    pass
             replay = {"label": label, "symmetry": sname, "pad": pad, "mirror_y": mirror, "ne": ne, "image_rows": ["".join("#" if x else "." for x in row) for row in arr[:80, :120]]}
             try:
                 got, contours, raw = observe(path, mirror, ne)
@@ -215,6 +227,11 @@ def run(res, tier, seed):
             inner = lattice_image(nx, ny, kind, px)
             exp = expected_lattice(nx, ny, kind)
         check_image(res, inner, exp, rng, exprs, f"{kind}{nx}x{ny}", SYMS if tier != "quick" else syms_quick)
+    # a honeycomb of 36..44 pixel wide cells whose vertical sides consist of 9 pixels (ridges longer than 8 pixels), resampled with ne
+    # equal to the number of vertices of one of its interfaces (the boundary case of 'at most ne segments')
+    a_s, b_s = int(rng.integers(18, 23)), 8
+    check_image(res, hex_image(3, 3, a_s, b_s), expected_from(*hex_cells(3, 3, a_s, b_s)), rng, exprs, f"hex3x3-short-sides{a_s}-{b_s}",
+                SYMS if tier != "quick" else syms_quick, ne_match=True)
     shipped = [os.path.join(impl.REPO, "tests", "data", "test_nonzero.tif")]
     if tier != "quick":
         shipped.append(os.path.join(impl.REPO, "tests", "data", "experimental", "exp_1.tif"))
